@@ -762,6 +762,12 @@ class RefQuals:
                 self.m[ascii_lower(k)] = u(2)
                 return "T"
             return "F"
+        if n == "trunc":
+            k = u(1)
+            if self.valid(k) and ascii_lower(k) in self.m:
+                self.m[ascii_lower(k)] = ""
+                return "T"
+            return "F"
         if n == "rm":
             k = u(1)
             if self.valid(k):
